@@ -242,6 +242,8 @@ class AbstractAst:
                 var = class_()
             except KeyError:
                 raise RTAMTException('The type {} does not seem to be imported.'.format(var_type))
+            except (AttributeError, TypeError):
+                raise RTAMTException('The type {0} cannot be created from the module {1}.'.format(var_type, var_module.__name__))
         return var
 
     def declare_var(self, var_name, var_type):
